@@ -19,6 +19,10 @@ RULE = ('state = one table (or one ordered pair of tables for dataJoin, one type
         'distinct marker values) x key expressions x flag. Scripts: the same operations through parse_script/'
         'execute_script with the table as a global and counts as float literals. CSV: every typed table of <= R rows x 2 '
         'columns, written by the reference writer, read as one string, as separate line strings and from a script. '
+        'Scopes: every table x 9 calls of dataFilter / dataCalculatedField / dataJoin whose expressions use a name that is at '
+        'once a global of the caller (kk = 1, b = 1, gg = 7), a key of the variables argument (kk = 2, b = 2, arrayLength = 2) and '
+        'possibly a row field (b); 5 more scripts set the global with a script statement (non-trivial: swapping variables and '
+        'globals in the lookup changes the expected result on this table). '
         'Calendar ends: every table of <= 3 rows whose column a is drawn from {null, 0001-01-01T00:00:00+23:59, '
         '9999-12-31T23:59:59-23:59, 9999-12-31T23:59:59Z, 0001-01-01T00:00:00Z, a valid date-time, abc} under UTC and DST zones: '
         'a text whose local time does not exist in years 1..9999 stays a string and the rest of the table is parsed '
@@ -40,6 +44,8 @@ RULE = ('state = one table (or one ordered pair of tables for dataJoin, one type
         '1/"1", true/"true", false/0, null-or-absent/"null", [true]/[1]); a time-zone table holds a January and a July datetime.')
 ASSUMPTIONS = [
     'an absent field has the value null (category value, sort key, expression variable)',
+    'name lookup in row expressions is innermost first: a field the row has, then the variables argument, then the globals '
+    'of the caller (doc comments: "additional variables for expression evaluation"; a flipped order lets a global hide the argument)',
     'the order of categories in the results of dataTop and dataAggregate is not stated: results are compared per category '
     '(rows of one category in input order for dataTop)',
     'dataJoin output is left-major: left rows in order, their right partners in right-row order; null keys are equal to '
@@ -487,6 +493,72 @@ def fam_aggregate_num(arg):
 
 
 # ---------------------------------------------------------------------------------------------------------------------
+# family scope: name collisions between row fields, the `variables` argument and the globals of the caller
+# (options['globals']). Innermost wins: a field the row has, then variables, then globals.
+# ---------------------------------------------------------------------------------------------------------------------
+
+SCOPE_GLOBALS = {'kk': 1, 'b': 1, 'gg': 7}
+SCOPES = [
+    ('filter', B('==', V('a'), V('kk')), {'kk': 2}),                      # variable shadows the global kk
+    ('filter', B('==', V('a'), V('kk')), None),                           # no variables: the global is seen
+    ('filter', B('==', V('a'), V('kk')), {'other': 2}),                   # variables without kk: the global is still seen
+    ('filter', B('==', V('a'), V('b')), {'b': 2}),                        # field b shadows variable b shadows global b
+    ('calc', B('+', B('+', V('a'), V('kk')), V('gg')), {'kk': 2}),        # variable kk and global gg in one expression
+    ('calc', B('+', V('a'), V('b')), {'b': 2}),
+    ('calc', B('+', V('a'), V('arrayLength')), {'arrayLength': 2}),       # a variable named like a library function, used as a value
+    ('join', (V('a'), B('+', V('a'), V('kk'))), {'kk': 0}),               # right key a + kk: variable 0, global 1
+    ('join', (V('b'), V('b')), {'b': 2}),                                 # key b: field, else variable, else global
+]
+
+
+def check_scope(case, acc):
+    rows = case['rows']
+    table = build_table(rows)
+    hit = False
+    for k, (kind, e, variables) in enumerate(SCOPES):
+        if case.get('variant', k) != k:
+            continue
+        options = {'globals': dict(SCOPE_GLOBALS)}
+        vcopy = dict(variables) if variables is not None else None
+        if kind == 'filter':
+            text = rd.expr_text(e)
+            label = f'dataFilter(t, {text!r}, {variables}) with globals {SCOPE_GLOBALS}'
+            ok, res = call(acc, 'dataFilter', [build_table(rows), text, vcopy], options)
+            want = rd.ref_filter(table, e, variables, SCOPE_GLOBALS)
+            other = rd.ref_filter(table, e, SCOPE_GLOBALS, variables)
+            d = ok and diff_rows(res, want, 'dataFilter')
+        elif kind == 'calc':
+            text = rd.expr_text(e)
+            label = f'dataCalculatedField(t, "c", {text!r}, {variables}) with globals {SCOPE_GLOBALS}'
+            ok, res = call(acc, 'dataCalculatedField', [build_table(rows), 'c', text, vcopy], options)
+            want = rd.ref_calculated(table, 'c', e, variables, SCOPE_GLOBALS)
+            other = rd.ref_calculated(table, 'c', e, SCOPE_GLOBALS, variables)
+            d = ok and diff_rows(res, want, 'dataCalculatedField')
+        else:
+            texts = [rd.expr_text(x) for x in e]
+            label = f'dataJoin(t, t, {texts[0]!r}, {texts[1]!r}, false, {variables}) with globals {SCOPE_GLOBALS}'
+            ok, res = call(acc, 'dataJoin', [build_table(rows), build_table(rows), texts[0], texts[1], False, vcopy], options)
+            blocks = rd.ref_join(table, table, e[0], e[1], variables, SCOPE_GLOBALS)
+            want = rd.join_flatten(blocks, False)
+            other = rd.join_flatten(rd.ref_join(table, table, e[0], e[1], SCOPE_GLOBALS, variables), False)
+            d = ok and diff_join(res, blocks, acc)
+        acc.traces += 1
+        c2 = dict(case, variant=k, op=label, table=table)
+        if not ok:
+            acc.violation(c2, canon_flat(want), res, f'{label.split("(")[0]} raised')
+        elif d:
+            acc.violation(c2, d[0], canon_flat(res), d[1] + ' (lookup order: row field, then variables, then globals)')
+        if tkey(want) != tkey(other):
+            hit = True          # the lookup order matters: globals-before-variables gives another result on this table
+        acc.outcome((k, tkey(want)))
+    return hit
+
+
+def fam_scope(arg):
+    return run_tables('scope', check_scope, arg)
+
+
+# ---------------------------------------------------------------------------------------------------------------------
 # family calc
 # ---------------------------------------------------------------------------------------------------------------------
 
@@ -733,6 +805,14 @@ SCRIPTS = [
     ("return dataCalculatedField(tt, 'c', 'b * factor', objectNew('factor', 3))", 'calc', ('c', B('*', V('b'), V('factor')), {'factor': 3})),
     ("return dataJoin(tt, uu, 'a')", 'join', (V('a'), None)),
     ("return dataJoin(tt, uu, 'a', 'b', true)", 'join', (V('a'), V('b'))),
+    # name collisions: the script's own global kk = 1 (and gg = 7), the variables argument kk = 2 shadows it; a row field shadows both
+    ("kk = 1\nreturn dataFilter(tt, 'a == kk', objectNew('kk', 2))", 'filter', (B('==', V('a'), V('kk')), {'kk': 2}, {'kk': 1})),
+    ("kk = 1\nreturn dataFilter(tt, 'a == kk')", 'filter', (B('==', V('a'), V('kk')), None, {'kk': 1})),
+    ("kk = 1\ngg = 7\nreturn dataCalculatedField(tt, 'c', '(a + kk) + gg', objectNew('kk', 2))", 'calc',
+     ('c', B('+', B('+', V('a'), V('kk')), V('gg')), {'kk': 2}, {'kk': 1, 'gg': 7})),
+    ("b = 1\nreturn dataCalculatedField(tt, 'c', 'a + b', objectNew('b', 2, 'arrayLength', 5))", 'calc',
+     ('c', B('+', V('a'), V('b')), {'b': 2, 'arrayLength': 5}, {'b': 1})),
+    ("kk = 1\nreturn dataJoin(tt, uu, 'a', 'a + kk', false, objectNew('kk', 0))", 'join', (V('a'), B('+', V('a'), V('kk')), {'kk': 0}, {'kk': 1})),
 ]
 _PARSED = {}
 
@@ -767,7 +847,7 @@ def check_script(case, acc):
             acc.violation(c2, 'a result', res, 'execute_script raised')
             continue
         if kind == 'filter':
-            d = diff_rows(res, rd.ref_filter(table, par[0], par[1]), 'dataFilter')
+            d = diff_rows(res, rd.ref_filter(table, *par), 'dataFilter')
         elif kind == 'sort':
             d = diff_rows(res, rd.ref_sort(table, par), 'dataSort')
         elif kind == 'top':
@@ -775,9 +855,9 @@ def check_script(case, acc):
         elif kind == 'aggregate':
             d = diff_aggregate(res, table, par[1], par[0], acc)
         elif kind == 'calc':
-            d = diff_rows(res, rd.ref_calculated(table, par[0], par[1], par[2]), 'dataCalculatedField')
+            d = diff_rows(res, rd.ref_calculated(table, *par), 'dataCalculatedField')
         else:
-            d = diff_join(res, rd.ref_join(table, table, par[0], par[1]), acc)
+            d = diff_join(res, rd.ref_join(table, table, *par), acc)
         if d:
             acc.violation(c2, d[0], canon_flat(res), d[1] + ' (called from a script)')
         if isinstance(res, list) and res:
@@ -1266,6 +1346,9 @@ def families(tier):
                f'every table of <= {nrows} rows with a from {{absent, 1, 2}} and measure b from {{absent, null, 100000001, 100000002, 100000003, '
                f'0.1, 0.2, 0.3, 1e+15, -1e+15}} x 6 functions x categories none,[a]; exact (fractions) reference with tolerances a sound '
                'float evaluation meets', expected=sum(len(num_rows()) ** k for k in range(nrows + 1))),
+        Family('scope', fam_scope, tshards,
+               f'{tb} x {len(SCOPES)} calls of dataFilter / dataCalculatedField / dataJoin (self-join) whose expressions use names that are '
+               f'a row field, a key of the variables argument and a global of the caller ({SCOPE_GLOBALS}) at once', expected=nt),
         Family('calc', fam_calc, tshards, f'{tb} x {len(CALCS)} calculated fields (new field, overwritten field, variables)', expected=nt),
         Family('join_keys', fam_join_keys, [(tier, c) for c in split(list(range(kt)), 64)],
                f'every ordered pair of the {kt} tables of <= 2 rows over a,b with cells a: {[CELLS[i][0] for i in JOIN_CELLS[tier][0]]}, '
@@ -1300,7 +1383,7 @@ def families(tier):
 
 _CHECKS = {'filter': check_filter, 'sort': check_sort, 'top': check_top, 'aggregate': check_aggregate, 'calc': check_calc,
            'join_keys': check_join_keys, 'join_names': check_join_names, 'script': check_script, 'csv': check_csv,
-           'aggregate_num': check_aggregate_num, 'keykinds': check_keykinds, 'join_keykinds': check_join_keykinds, 'csv_tz': check_csv_tz, 'csv_edge': check_csv_edge}
+           'scope': check_scope, 'aggregate_num': check_aggregate_num, 'keykinds': check_keykinds, 'join_keykinds': check_join_keykinds, 'csv_tz': check_csv_tz, 'csv_edge': check_csv_edge}
 
 
 def replay(family, case):
